@@ -154,7 +154,7 @@ func c07FillChunks(tier string) []SeqChunk {
 	}
 	var alpha []draw
 	for _, w := range []int{0, 2, 3, 5, 9} {
-		for _, pr := range [][3]int64{{4, 0, 0}, {4, 2, 0}, {4, 2, 1}, {4, 4, 0}, {100, 1, 0}} {
+		for _, pr := range [][3]int64{{4, 0, 0}, {4, 2, 0}, {4, 2, 1}, {4, 4, 0}, {100, 1, 0}, {8, 2, 0}, {2, 2, 0}} {
 			alpha = append(alpha, draw{w, pr[0], pr[1], pr[2]})
 		}
 	}
